@@ -85,6 +85,11 @@ Symmetric == {"number_cross_links", "cross_link_density", "cross_average_path_le
 \* numbers): the same definitions on the weighted shortest-path matrix
 WCtx(G) == [G EXCEPT !.D = WDistMat(G.A, RootMat(G.A, G.dir))]
 WStrength(G, L1, L2, a) == SumN(LAMBDA b : RootMat(G.A, G.dir)[L1[a]][L2[b]], 1, Len(L2))
+WInStrength(G, L1, L2, a) == SumN(LAMBDA b : RootMat(G.A, G.dir)[L2[b]][L1[a]], 1, Len(L2))
+GEffIs(o, ge, le, n1) ==
+  (HasS(o, ge) /\ HasV(o, le) /\ IsNum(o.s[ge]) /\ \A a \in 1..n1 : IsNum(o.v[le][a])) =>
+     LET sum == SumN(LAMBDA a : o.v[le][a], 1, n1) IN
+     sum > 1000 => Close(o.s[ge], FxDiv(n1 * 1000000, sum, 1000000), Tol + o.s[ge] \div 10000)
 DefChecksW(G, o, L1, L2) ==
   LET n1 == Len(L1)  GW == WCtx(G) IN <<
   <<"cross_path_lengths(c)", HasM(o, "cross_path_lengths(c)") => CloseMat(o.m["cross_path_lengths(c)"], CrossDist(GW, L1, L2), Tol)>>,
@@ -94,7 +99,19 @@ DefChecksW(G, o, L1, L2) ==
   <<"cross_closeness(c)", Vec(o, "cross_closeness(c)", n1, LAMBDA a : CrossCloseness(GW, L1, L2, a))>>,
   <<"internal_closeness(c)", Vec(o, "internal_closeness(c)", n1, LAMBDA a : InternalCloseness(GW, L1, a))>>,
   <<"local_efficiency(c)", Vec(o, "local_efficiency(c)", n1, LAMBDA a : LocalEfficiency(GW, L1, L2, a))>>,
-  <<"cross_outdegree(c)", Vec(o, "cross_outdegree(c)", n1, LAMBDA a : S * WStrength(G, L1, L2, a))>> >>
+  <<"cross_outdegree(c)", Vec(o, "cross_outdegree(c)", n1, LAMBDA a : S * WStrength(G, L1, L2, a))>>,
+  <<"cross_indegree(c)", Vec(o, "cross_indegree(c)", n1, LAMBDA a : S * WInStrength(G, L1, L2, a))>>,
+  <<"cross_degree(c)", Vec(o, "cross_degree(c)", n1, LAMBDA a :
+        S * (IF G.dir = 1 THEN WStrength(G, L1, L2, a) + WInStrength(G, L1, L2, a) ELSE WStrength(G, L1, L2, a)))>>,
+  <<"internal_outdegree(c)", Vec(o, "internal_outdegree(c)", n1, LAMBDA a : S * WStrength(G, L1, L1, a))>>,
+  <<"internal_indegree(c)", Vec(o, "internal_indegree(c)", n1, LAMBDA a : S * WInStrength(G, L1, L1, a))>>,
+  <<"internal_degree(c)", Vec(o, "internal_degree(c)", n1, LAMBDA a :
+        S * (IF G.dir = 1 THEN WStrength(G, L1, L1, a) + WInStrength(G, L1, L1, a) ELSE WStrength(G, L1, L1, a)))>>,
+  <<"average_cross_closeness(c)", Sca(o, "average_cross_closeness(c)",
+        RDiv(SumN(LAMBDA a : CrossCloseness(GW, L1, L2, a), 1, n1), n1))>>,
+  \* global efficiency = 1 / mean(local efficiency), with and without link lengths (from the recorded vectors)
+  <<"global_efficiency(c)", GEffIs(o, "global_efficiency(c)", "local_efficiency(c)", n1)>>,
+  <<"global_efficiency", GEffIs(o, "global_efficiency", "local_efficiency", n1)>> >>
 BadSwap(e) == IF e.directed = 1 THEN {} ELSE
    {nm \in Symmetric : HasS(e.obs, nm) /\ HasS(e.swap, nm) /\ ~Close(e.obs.s[nm], e.swap.s[nm], Tol)}
 \* both groups = the whole node set reproduces the single-network measure
